@@ -506,6 +506,30 @@ static void opNorm(Rng& r, Ctx& c, int kind, int content)
       }
     }
   }
+  // MatrixSquareSymmetric::normMatrix(y, x, transpose): "this = t(Y) %*% X %*% Y (T=false) or Y %*% X %*% t(Y) (T=true)", X optional
+  // (MatrixSquareSymmetric.cpp); the output is square with the dimension of the free side of Y
+  if (kind == RECT || kind == SYM)
+  {
+    auto a = mk(RECT, A);
+    for (int T = 0; T < 2; T++)
+    {
+      int nx = T ? n2 : n1, nout = T ? n1 : n2;
+      Mat Xs = genMat(r, nx, nx, content, true);
+      Mat Ay = T ? A : A.T();
+      Mat wantX = ref::mul(ref::mul(Ay, Xs), Ay.T()), wantG = ref::mul(Ay, Ay.T());
+      double tolX = 64 * EPS * (nx + 2) * (nx + 2) * ((double)A.maxabs() * (double)A.maxabs() * ((double)Xs.maxabs() + 1.) + 1e-300);
+      auto xs = mk(SYM, Xs);
+      auto* xsq = dynamic_cast<AMatrixSquare*>(xs.get());
+      MatrixSquareSymmetric res(nout), gram(nout);
+      if (xsq != nullptr)
+      {
+        res.normMatrix(*a, *xsq, T != 0);
+        cmpMat(c, "normMatrix", K + (T ? ":normMatrix:YXYt" : ":normMatrix:YtXY"), res, wantX, tolX);
+      }
+      gram.normMatrix(*a, AMatrixSquare(), T != 0);
+      cmpMat(c, "normMatrix", K + (T ? ":normMatrix:YYt" : ":normMatrix:YtY"), gram, wantG, tolX);
+    }
+  }
 }
 
 static void opSample(Rng& r, Ctx& c, int kind, Mat m)
@@ -778,6 +802,13 @@ static void opVector(Rng& r, Ctx& c)
     c.close("VectorNumT::mean", K + ":mean", v.mean(), (double)(s / n), tol);
     c.close("VH::maximum", K + ":VH::maximum", VH::maximum(v), (double)mx, 0);
     c.close("VH::minimum", K + ":VH::minimum", VH::minimum(v), (double)mn, 0);
+    {
+      // "flagAbs: When True, take the absolute value of 'vec' beforehand" (VectorHelper.cpp)
+      LD mxa = 0, mna = INFINITY;
+      for (int i = 0; i < n; i++) { mxa = std::max<LD>(mxa, std::fabs(v[i])); mna = std::min<LD>(mna, std::fabs(v[i])); }
+      c.close("VH::maximum", K + ":VH::maximum:abs", VH::maximum(v, true), (double)mxa, 0);
+      c.close("VH::minimum", K + ":VH::minimum:abs", VH::minimum(v, true), (double)mna, 0);
+    }
     c.close("VH::mean", K + ":VH::mean", VH::mean(v), (double)(s / n), tol);
     c.close("VH::cumul", K + ":VH::cumul", VH::cumul(v), (double)s, tol);
     c.close("VH::normL1", K + ":VH::normL1", VH::normL1(v), (double)l1, tol);
